@@ -167,6 +167,17 @@ fn run(args: &Args) {
             }
             let mut restarted = false;
             let (coq, j, res): (String, serde_json::Value, Result<bool, ()>) = match choice {
+                0..=3 if rng.chance(1, 2) => {
+                    // as the protocol message to the node-level handler
+                    use vls_protocol::msgs::{self, SerBolt};
+                    use vls_protocol_signer::handler::Handler;
+                    let r = catch_unwind(AssertUnwindSafe(|| {
+                        let root = make_root_handler(&node, 6);
+                        let m = msgs::NewChannel { peer_id: vls_protocol::model::PubKey(peer), dbid };
+                        root.handle(msgs::from_vec(m.as_vec()).expect("request survives the wire")).is_ok()
+                    }));
+                    (format!("NewChannel {}", dbid), json!(["new_channel_msg", dbid]), r.map_err(|_| ()))
+                }
                 0..=3 => {
                     let r = catch_unwind(AssertUnwindSafe(|| node.new_channel(dbid, &peer, &node).is_ok()));
                     (format!("NewChannel {}", dbid), json!(["new_channel", dbid]), r.map_err(|_| ()))
@@ -202,6 +213,16 @@ fn run(args: &Args) {
                     }));
                     (format!("SetupChannel {}", dbid), json!(["setup_channel", dbid]), r.map_err(|_| ()))
                 }
+                7..=9 if rng.chance(1, 2) => {
+                    use vls_protocol::msgs::{self, SerBolt};
+                    use vls_protocol_signer::handler::Handler;
+                    let r = catch_unwind(AssertUnwindSafe(|| {
+                        let root = make_root_handler(&node, 6);
+                        let m = msgs::ForgetChannel { node_id: vls_protocol::model::PubKey(peer), dbid };
+                        root.handle(msgs::from_vec(m.as_vec()).expect("request survives the wire")).is_ok()
+                    }));
+                    (format!("ForgetChannel {}", dbid), json!(["forget_channel_msg", dbid]), r.map_err(|_| ()))
+                }
                 7..=9 => {
                     let r = catch_unwind(AssertUnwindSafe(|| node.forget_channel(&cid).is_ok()));
                     (format!("ForgetChannel {}", dbid), json!(["forget_channel", dbid]), r.map_err(|_| ()))
@@ -214,6 +235,16 @@ fn run(args: &Args) {
                 101 => {
                     let ok = sys.remove_block();
                     ("Heartbeat".to_string(), json!(["remove_block", sys.undo.len()]), Ok(ok))
+                }
+                10 if rng.chance(1, 2) => {
+                    use vls_protocol::msgs::{self, SerBolt};
+                    use vls_protocol_signer::handler::Handler;
+                    let r = catch_unwind(AssertUnwindSafe(|| {
+                        let root = make_root_handler(&node, 6);
+                        let m = msgs::GetHeartbeat {};
+                        root.handle(msgs::from_vec(m.as_vec()).expect("request survives the wire")).is_ok()
+                    }));
+                    ("Heartbeat".to_string(), json!("heartbeat_msg"), r.map_err(|_| ()))
                 }
                 10 => {
                     let r = catch_unwind(AssertUnwindSafe(|| {
